@@ -397,7 +397,7 @@ def impl(case):
                "nchildren": len(rule.children), "readable": info["readable"], "nsteps": info["nsteps"],
                "reverse_steps": info["reverse_steps"], "siblings": info["siblings"], "strat": info["strat"],
                "raw_steps": info["raw_steps"], "product_steps": info["product_steps"],
-               "raw_reverse_product_steps": info["raw_reverse_product_steps"]}
+               "raw_reverse_product_steps": info["raw_reverse_product_steps"], "fk": _forest_key_shifts(rule)}
         if exc and not info["readable"] and exc.startswith("NotImplementedError at level 0"):
             res["not_implemented"] = True
         elif exc:
@@ -406,10 +406,26 @@ def impl(case):
     _, rule = U.build_rule(case["spec"])
     shifts = list(rule.shifts())
     levels, exc = U.record_reads(rule, case["N"])
-    res = {"out": [shifts] + [[list(r) for r in lv] for lv in levels], "nchildren": len(rule.children)}
+    res = {"out": [shifts] + [[list(r) for r in lv] for lv in levels], "nchildren": len(rule.children),
+           "fk": _forest_key_shifts(rule)}
     if exc:
         res["raised"] = exc
     return res
+
+
+def _forest_key_shifts(rule):
+    """the shifts the productivity analysis RECEIVES for this rule: rule.forest_key(...).shifts (the fixed-point
+    analysis of C03/C11 never calls shifts() itself).  None when the key cannot be built for this universe's classes."""
+    labels = {}
+
+    def get_label(c):
+        return labels.setdefault(c, len(labels))
+
+    try:
+        k = rule.forest_key(get_label, lambda c: False)
+        return [list(k.shifts), len(k.children)]
+    except Exception:  # pylint: disable=broad-except
+        return None
 
 
 # ------------------------------------------------------------------ oracle
@@ -472,6 +488,10 @@ def oracle(case, res):
     shifts, levels = out[0], res.get("levels", out[1:])
     if len(shifts) != res["nchildren"]:
         return "rule declares %d shifts for %d children" % (len(shifts), res["nchildren"])
+    fk = res.get("fk")
+    if fk is not None and (fk[0] != shifts or fk[1] != res["nchildren"]):
+        return ("the forest key handed to the productivity analysis carries shifts %r for %d children, the rule declares "
+                "%r for %d (what the analysis accepts is then not what the reads are bounded by)" % (fk[0], fk[1], shifts, res["nchildren"]))
     for n, lv in enumerate(levels):
         for p, m in lv:
             if p == -1:
@@ -724,4 +744,11 @@ def extra_checks(ctx):
                    "with reverse steps, product equivalences read and shifts-only, one-factor products and their "
                    "reverse, paths of raw one-child rules), own-term reads, negative shifts", not missing,
                    "never generated: %s" % missing if missing else "ok"))
+    # 4. the shifts the productivity analysis receives (forest_key) were really compared with shifts()
+    nrule = sum(1 for c in ctx.cases if c["kind"] == "rule")
+    nfk = sum(1 for c, (res, _, _) in zip(ctx.cases, ctx.impl_res) if c["kind"] == "rule" and res.get("fk") is not None)
+    checks.append(("forest_key(...).shifts == rule.shifts() judged on rule cases: %d of %d" % (nfk, nrule),
+                   nrule == 0 or nfk >= nrule // 2,
+                   "the key handed to the fixed-point analysis (C03/C11) is built by forest_key, which is what "
+                   "C10_enough_for_productivity's key hypothesis is about; a rule case without a key = forest_key raised"))
     return checks
